@@ -118,17 +118,27 @@ func (g *SymbolGraph) RemoveEdge(from, to graphs.SymbolKey, kind *SymbolEdgeKind
 		return
 	}
 
+	// Adjacency entries hold full (versioned) keys whereas edges are indexed by base ID - match on
+	// the base ID so a key taken from another version of the same file still clears its entries
 	if depsMap, ok := g.deps[fromBase]; ok {
-		delete(depsMap, to)
+		deleteKeysByBaseId(depsMap, toBase)
 		if len(depsMap) == 0 {
 			delete(g.deps, fromBase)
 		}
 	}
 
 	if revMap, ok := g.revDeps[toBase]; ok {
-		delete(revMap, from)
+		deleteKeysByBaseId(revMap, fromBase)
 		if len(revMap) == 0 {
 			delete(g.revDeps, toBase)
+		}
+	}
+}
+
+func deleteKeysByBaseId(keys map[graphs.SymbolKey]struct{}, baseId string) {
+	for key := range keys {
+		if key.BaseId() == baseId {
+			delete(keys, key)
 		}
 	}
 }
